@@ -203,7 +203,7 @@ theorem candidatesAt_eq (ec : EightChar) (k : Int) (hk : 0 ≤ k ∧ k ≤ 11) (
   have js := jan1_step ((yn : Int) + 1) (by omega)
   have j1 : jdn 1 1 1 = 1721424 := by decide
   have m1 := jan1_mono 1 (yn : Int) (by omega) (by omega)
-  obtain ⟨tv, tj, ty1, ty2⟩ := year_of_jdn (realEph.termDay G) (yn : Int) ((yn : Int) + 1) (by omega) (by omega) (by omega) (by omega) (by omega)
+  obtain ⟨tv, tj, ty1, ty2⟩ := jdn_year_range (realEph.termDay G) (yn : Int) ((yn : Int) + 1) (by omega) (by omega) (by omega) (by omega) (by omega)
   refine ⟨?_, by omega, by omega⟩
   -- the lunar date of the Jie day
   obtain ⟨_, _, _, _, t5⟩ := C02_good_intervals
@@ -253,7 +253,7 @@ theorem mkTime_ok (j ya yb hour mi s : Int) (hya : 1 ≤ ya) (hab : ya ≤ yb) (
     (hh : 0 ≤ hour ∧ hour ≤ 23) (hm : 0 ≤ mi ∧ mi ≤ 59) (hs : 0 ≤ s ∧ s ≤ 59) :
     TimeOK (mkTime j hour mi s) ∧ ya ≤ (mkTime j hour mi s).1 ∧ (mkTime j hour mi s).1 ≤ yb ∧
       jdn (mkTime j hour mi s).1 (mkTime j hour mi s).2.1 (mkTime j hour mi s).2.2.1 = j := by
-  obtain ⟨v, e, y1, y2⟩ := year_of_jdn j ya yb hya hab hyb h1 h2
+  obtain ⟨v, e, y1, y2⟩ := jdn_year_range j ya yb hya hab hyb h1 h2
   exact ⟨⟨v, hh, hm, hs⟩, y1, y2, e⟩
 
 /-- every candidate of one step is a well-formed instant of the years y .. y+2 -/
@@ -399,7 +399,7 @@ theorem C09_complete_real (t : EC.Time) (ec : EightChar) (y0 y1 : Int) (ht : Tim
     have hh0 : ec.hour % 12 * 2 = 2 * b := by rw [eh, ah12]; omega
     rw [hh0] at ce
     -- the year of the Jie day
-    obtain ⟨tdv, _, tdy1, _⟩ := year_of_jdn (realEph.termDay J) Ys (Ys + 1) (by omega) (by omega) (by omega) (by omega) (by
+    obtain ⟨tdv, _, tdy1, _⟩ := jdn_year_range (realEph.termDay J) Ys (Ys + 1) (by omega) (by omega) (by omega) (by omega) (by
       have := jan1_step (Ys + 1) (by omega); omega)
     have hcond : (ofJdn (realEph.termDay J)).1 ≥ y0 - 1 := by omega
     rw [if_pos hcond] at ce
